@@ -43,6 +43,65 @@ def undelivered_phase(ctx, cr, fails, dist):
                           "kind": "undelivered-" + kind})
 
 
+def purge_phase(ctx, orc, fails, dist):
+    """'at most once' across the life of the replay record: credentials whose TTL exceeds the decoding daemon's --max-ttl
+    (minted by a peer holding the same key: the reference), decodes at chosen clock readings, and the periodic purge firing
+    in between (timer thread fast-forwarded, harness/vtimer.c).  Every reply is compared with the model (dec_process +
+    CredHistory.r_purge), and the clause itself is evaluated: no credential is successfully decoded twice."""
+    exe, err = rig.build_daemon(ctx, name="munged-vt", san="address", extra_src=rig.vtimer_src(), wraps=rig.VTIMER_WRAPS)
+    if exe is None:
+        ctx.violation("munged does not build with the timer fast-forward shim: " + err[-300:], {"obligation": "build"}, found_input=False)
+        return []
+    T = 1500000000
+    rng = ctx.rng
+    mism = []
+    for max_ttl in ((5, 60, 300) if ctx.thorough else (5, 60)):
+        cr = credcorr.CredRig(ctx, exe, orc, tag="c05p%d" % max_ttl, max_ttl=max_ttl, clock=T, extra=["--group-update-time=0"])
+        if not cr.ok:
+            ctx.violation("daemon does not start (purge phase)", {"obligation": "start"}, found_input=False)
+            return mism
+        peer = credcorr.Oracle(orc, cr.d.keyfile, max_ttl=3600)
+        try:
+            for ttl in (max_ttl + 1, max_ttl + 40, 2000):
+                for rep in range(3 if ctx.thorough else 2):
+                    e = peer.enc(rng.choice([0, 4]), 5, 0, b"", ttl, ANY, ANY, b"purge-phase %d %d" % (ttl, rep), 0, 11, 12, T,
+                                 bytes(rng.getrandbits(8) for _ in range(8)), bytes(rng.getrandbits(8) for _ in range(16)))
+                    if e["error_num"] != 0:
+                        continue
+                    cred = e["data"]
+                    # a history: decode, decode again, purge after the capped life, decode inside the ORIGINAL ttl, ...
+                    offs = sorted(rng.sample(range(0, max_ttl + 1), 2)) + [max_ttl + 1 + rng.randrange(0, 30)]
+                    hist = [("dec", offs[0]), ("dec", offs[1]), ("purge", offs[2]), ("dec", offs[2]),
+                            ("purge", min(ttl, offs[2] + 70)), ("dec", min(ttl, offs[2] + 70))]
+                    succ = 0
+                    log = []
+                    for ev, dt in hist:
+                        cr.set_clock(T + dt)
+                        if ev == "purge":
+                            cr.d.advance_timers(61000)
+                            cr.o.purge(T + dt)
+                            log.append("purge@+%d" % dt)
+                            continue
+                        d, m, diff = cr.decode_both(cred, uid=5, gid=6)
+                        log.append("decode@+%d->%s" % (dt, d and d["error_num"]))
+                        if diff:
+                            mism.append(dict(cr.mismatches[-1], history=list(log), max_ttl=max_ttl, ttl=ttl))
+                        if d is not None and d["error_num"] == 0:
+                            succ += 1
+                    ctx.count(("purge-history", max_ttl, ttl, rep, tuple(hist)))
+                    dist["purge-history"] = dist.get("purge-history", 0) + 1
+                    if succ > 1:
+                        fails.append({"why": "a credential (ttl %d, decoder --max-ttl %d) was successfully decoded %d times on one daemon: %s"
+                                             % (ttl, max_ttl, succ, " ".join(log)), "cred_hex": cred.hex(), "history": log,
+                                      "max_ttl": max_ttl, "kind": "purge-history"})
+        finally:
+            peer.close()
+            rc, rep = cr.stop()
+        if rep.strip():
+            ctx.violation("sanitizer report from the daemon during the C05 purge phase", {"report": rep[:3000]}, found_input=False)
+    return mism
+
+
 def live_phase(ctx):
     try:
         exe, orc = credcorr.build_all(ctx)
@@ -145,6 +204,11 @@ def live_phase(ctx):
         if mism and not fails:
             ctx.violation("model and daemon disagree in the C05 live phase on %d cases (first: %s)" % (len(mism), mism[0]["diff"]),
                           {"obligation": "correspondence CredModel ~ munged (C05 live)", "first": mism[0]}, found_input=False)
+    pm = purge_phase(ctx, orc, fails, dist)
+    if pm and not fails:
+        ctx.violation("model and daemon disagree in the C05 purge histories on %d cases (first: %s; history %s)"
+                      % (len(pm), pm[0]["diff"], " ".join(pm[0]["history"])),
+                      {"obligation": "correspondence CredModel+r_purge ~ munged (C05 purge histories)", "first": pm[0]}, found_input=False)
     ctx.cov.setdefault("input_distribution", {}).update({"live-" + k: v for k, v in dist.items()})
     seen = set()
     for f in fails:
